@@ -160,7 +160,9 @@ Definition legacy_ok : bool :=
   && body_eqb (legacy_body LSetMaxInlineILSize) BReturnsArg
   && body_eqb (legacy_body LGetStats) BReturnsZeroStruct
   && opts_imported_only_by_options_go && opts_used_only_as_type
-  && negb env_read_outside_opts && parseOrDefault_shape && negb opts_vars_referenced_outside.
+  && negb env_read_outside_opts && parseOrDefault_shape && negb opts_vars_referenced_outside
+  (* each FRUGAL_MAX_INLINE_* variable is parsed on its own, against constant (default, minimum) *)
+  && (match env_vars with [(d1, m1); (d2, m2)] => (m1 <? d1) && (m2 <? d2) | _ => false end).
 
 (* ---- access discipline of the package-level state (internal/reflect) ---- *)
 Open Scope string_scope.
